@@ -12,6 +12,7 @@ CHECK = {
                       "bubble, so trackRequest feedback flows as in production. The real-instance part (exported Lookup/ContentLookup over a "
                       "simulated network) is the second run spec (TestC10_Net* in p_proto).",
         "technique": "property-based testing (rapid, plan-first) with an owned schedule under testing/synctest; oracle from the query log and a closest-k specification",
+        "crash_is_violation": True,
         "runs": [
             {"name": "engine", "run": "^TestC10_Engine", "checks": {"quick": 4000, "thorough": 20000}, "shards": {"quick": 1, "thorough": 16}},
             # exported Lookup / ContentLookup of a real instance over the simulated network against scripted discv5 peers (package p_proto)
@@ -35,6 +36,6 @@ CHECK = {
             "query functions never return nil nodes (every production query function filters them)",
             "at engine level the asker's own record is an ordinary node of the result (the production worker removes it before the engine sees it; that is checked in the real-instance run)",
         ],
-        "required_classes": {"quick": ["content-found", "content-not-found", "node-lookup-queried", "queries>=4-with-order-choice", "adversarial-answer-processed", "cancel-with-queries-in-flight",
+        "required_classes": {"quick": ["content-found", "content-not-found", "node-lookup-queried", "late-replies-after-lookup-ended", "queries>=4-with-order-choice", "adversarial-answer-processed", "cancel-with-queries-in-flight",
                                        "cancel-and-reply-in-the-same-instant", "empty-table-start", "seen>16", "in-flight-reached-3", "peers:61-200", "peers:0"]},
     }
